@@ -129,17 +129,21 @@ impl SimExec for Exec {
             JoinOutcome::StolenLate => run_two(a, inj, b, true),
             JoinOutcome::StolenEarly => run_two(b, true, a, inj),
             JoinOutcome::Overlap => {
-                let mut pa = None;
-                let mut pb = None;
-                shuttle::thread::scope(|s| {
-                    let h = s.spawn(|| catch_unwind(AssertUnwindSafe(|| b(true))));
-                    pa = catch_unwind(AssertUnwindSafe(|| a(inj))).err();
-                    pb = match h.join() {
-                        Ok(Ok(())) => None,
-                        Ok(Err(e)) => Some(e),
-                        Err(e) => Some(e),
-                    };
+                // shuttle 0.9.3's *scoped* threads cannot be nested (a finishing scoped thread
+                // wakes its scope's main task even when that task waits in an inner scope,
+                // which then returns early). Use a plain spawned thread with the borrow's
+                // lifetime erased instead; soundness rests on the unconditional join below:
+                // this frame does not return (or unwind) before arm b has finished.
+                let b_static: &'static mut (dyn FnMut(bool) + Send) =
+                    unsafe { std::mem::transmute::<Arm<'_>, &'static mut (dyn FnMut(bool) + Send)>(b) };
+                let h = shuttle::thread::spawn(move || {
+                    catch_unwind(AssertUnwindSafe(|| b_static(true))).err()
                 });
+                let pa = catch_unwind(AssertUnwindSafe(|| a(inj))).err();
+                let pb = match h.join() {
+                    Ok(r) => r,
+                    Err(e) => Some(e),
+                };
                 if let Some(e) = pa {
                     resume_unwind(e);
                 }
